@@ -123,6 +123,9 @@ static VhOp ops[] = {
 #ifdef VH_WITH_DANGER
 	vh_ops_danger,
 #endif
+#ifdef VH_WITH_CLI
+	vh_ops_cli,
+#endif
 };
 
 #ifdef VH_RO_GLOBALS
